@@ -400,6 +400,17 @@ INNER = {"attrs>a": lambda v: {"a": v}, "fortran_generic>decl": lambda v: [{"dec
          "cxx_template>instantiation": lambda v: [{"instantiation": v}], "doxygen>brief": lambda v: {"brief": v}}
 
 
+# values of the right YAML type that are still no documented use of the field (round 9): a declaration that names nothing,
+# a list where an attribute's number is expected, an empty text where code is expected
+ALTS = {
+    "D0/decl": ["int", "int *", ""],
+    "D0/attrs>a": [{"rank": [1]}, {"intent": ["in"]}],
+    "D0/splicer": [{"c": ""}, {"c": None}],
+    "D0/doxygen>brief": [""],
+}
+# the whole input is not a mapping
+TOP_SHAPES = [None, ["x"], "text", 7]
+
 # fields whose documented value does not fit the declaration used here ('void f(int a = 1)')
 NOT_VALID_ALONE = ("typemap", "D0/cxx_template", "D0/declarations", "D0/cxx_template>instantiation")
 
@@ -420,11 +431,25 @@ class YamlHarness(object):
         d = {"library": "att", "cxx_header": "att.hpp",
              "declarations": [{"decl": "void f(int a = 1)"}, {"decl": "class Class1", "declarations": [{"decl": "Class1()"}]}]}
         self.desc = []
+        tv = z3.Int("top_shape")
+        e.assume(z3.And(tv >= 0, tv <= len(TOP_SHAPES)))
+        top = e.choose(tv)
+        if top:
+            # (only with the first pair of fields: the fields play no role here)
+            if (i, j) != (0, 1):
+                raise Infeasible()
+            self.desc = [("<top level>", repr(TOP_SHAPES[top - 1]))]
+            self.shared = False
+            self.d = copy.deepcopy(TOP_SHAPES[top - 1])
+            generate_only(copy.deepcopy(self.d))
+            return "accepted"
         for n, idx in enumerate(chosen):
-            kv = z3.Int("k_%d" % n)
-            e.assume(z3.And(kv >= 0, kv < len(WRONG)))
-            kind = WRONG[e.choose(kv)]
             path, okv = FIELDS[idx]
+            alts = ALTS.get("/".join(path), [])
+            kv = z3.Int("k_%d" % n)
+            e.assume(z3.And(kv >= 0, kv < len(WRONG) + len(alts)))
+            kc = e.choose(kv)
+            kind = WRONG[kc] if kc < len(WRONG) else "alt%d" % (kc - len(WRONG))
             self.desc.append(("/".join(path), kind))
             target = d
             if path[0] == "D0":
@@ -443,6 +468,8 @@ class YamlHarness(object):
             elif kind == "ok":
                 if okv is not None:
                     target[key] = wrap(copy.deepcopy(okv))
+            elif kind.startswith("alt"):
+                target[key] = wrap(copy.deepcopy(alts[int(kind[3:])]))
             else:
                 target[key] = wrap(wrong_value(kind))
         # the first declaration's mapping may occur a second time (a YAML alias: the same object in two places)
